@@ -496,6 +496,40 @@ fn c12_stop_settles_a_waiter_that_polls_fixed_id() {
     core::mem::forget(p);
 }
 
+/// A waiter that only arrives AFTER the pool has reached Stopped (a late join) leaves a registration behind when its wait times
+/// out; a later stop() - what dropping the pool, or the event loop that owns it, issues - must settle it: its next wait gets the
+/// stop error at once.
+#[kani::proof]
+#[kani::unwind(3)]
+#[kani::stub(crate::common::now, vnow)]
+#[kani::stub(alloc::fmt::format, fmt_stub)]
+#[kani::stub(crate::common::page_size, page_size_stub)]
+#[kani::stub(crate::common::beans::BeanFactory::get_or_default, StubFactory::get_or_default)]
+fn c12_stop_of_a_stopped_pool_settles_late_waiters() {
+    small_queues();
+    let mut p = pool("p");
+    p.state.set(PoolState::Stopped);
+    let id: u64 = 7;
+    let first_timed_out = {
+        let r1 = p.wait_task_result(id, Duration::from_millis(5));
+        let e = r1.is_err();
+        core::mem::forget(r1);
+        e
+    };
+    kani::assert(first_timed_out, "nothing will ever complete this id: the late waiter's first wait times out");
+    let stop = p.stop(Duration::from_millis(1));
+    kani::assert(stop.is_ok(), "stopping a stopped pool succeeds");
+    core::mem::forget(stop);
+    kani::assert(p.state() == PoolState::Stopped, "the pool stays Stopped");
+    let r2 = p.wait_task_result(id, Duration::from_millis(5));
+    kani::assert(matches!(r2, Ok(Err(_))), "after the repeated stop the late waiter gets the stop error instead of timing out again");
+    unsafe {
+        kani::assert(verif_sync::FULL_TIMEOUTS == 1, "only the first wait slept through its timeout");
+    }
+    core::mem::forget(r2);
+    core::mem::forget(p);
+}
+
 // =============================================================================================== C13
 /// Two queued tasks, one of them (symbolic) is cancelled before it starts: the worker skips exactly that one, runs the other
 /// one once, the cancel mark is consumed, and the waiter of the cancelled task is not left blocked until its timeout.
